@@ -307,9 +307,22 @@ func trimStack(st string) string {
 	return strings.Join(lines, "\n")
 }
 
+// privateTmp is this process' own temporary directory (TMPDIR points at it), so spill files and
+// uploads created by the code under test never land in the shared /tmp and can be listed.
+var privateTmp string
+
 func TestMain(m *testing.M) {
+	base := filepath.Join(workDir(), "tmp")
+	_ = os.MkdirAll(base, 0o755)
+	if d, err := os.MkdirTemp(base, "p"); err == nil {
+		privateTmp = d
+		_ = os.Setenv("TMPDIR", d)
+	}
 	code := m.Run()
 	writeStats()
+	if privateTmp != "" {
+		_ = os.RemoveAll(privateTmp)
+	}
 	os.Exit(code)
 }
 
